@@ -6,9 +6,9 @@ From Agdb Require Import DbModel.
 Definition rv_fixed : revision :=
   {| fix_rollback_replace := true; fix_alias_steal_undo := true; fix_alias_nodes_only := true;
      fix_strict_order := true; fix_slice_clamp := true; fix_edge_origin := true;
-     fix_visited_chain := true; fix_nodes_ids_alias := true |}.
+     fix_visited_chain := true; fix_nodes_ids_alias := true; fix_empty_alias := true |}.
 
 Definition rv_pinned : revision :=
   {| fix_rollback_replace := false; fix_alias_steal_undo := false; fix_alias_nodes_only := false;
      fix_strict_order := false; fix_slice_clamp := false; fix_edge_origin := false;
-     fix_visited_chain := false; fix_nodes_ids_alias := false |}.
+     fix_visited_chain := false; fix_nodes_ids_alias := false; fix_empty_alias := false |}.
